@@ -170,6 +170,15 @@ func init() {
 				return
 			}
 			guard := t.K == "A" && t.Y == nil
+			// a tag with a backquote is printed between backquotes: how the lexer splits it is outside the model
+			tagQuote := false
+			t.walk(func(m *xn) {
+				for _, f := range m.Fields {
+					if strings.Contains(f.Tag, "`") {
+						tagQuote = true
+					}
+				}
+			})
 			for _, expanded := range []bool{false, true} {
 				if expanded && !t.hasKind("K") {
 					continue
@@ -181,14 +190,18 @@ func init() {
 				hook.SetExpandedPrint(old)
 				if m != "" {
 					line("xshow", fl, txt, "panic")
-					line("xclaim", fl, txt, "0", "ok")
+					line("xclaim", fl, txt, "", "0", "ok")
 					continue
 				}
 				line("xshow", fl, txt, "ok:"+xhex(s))
+				if tagQuote {
+					c.Count("skipped_outside_model")
+					continue
+				}
 				ts, ok := hook.LexExpr([]byte(s), tmpl)
 				if !ok {
 					line("xtoks", fl, txt, "lex-error")
-					line("xclaim", fl, txt, "0", "ok")
+					line("xclaim", fl, txt, "", "0", "ok")
 					continue
 				}
 				body, suffix := xsplitSuffix(ts, tmpl)
@@ -204,7 +217,7 @@ func init() {
 				if realok {
 					c.Count("real_round_trips")
 				}
-				line("xclaim", fl, txt, fmt.Sprint(b01(realok)), "ok")
+				line("xclaim", fl, txt, xtokens(suffix), fmt.Sprint(b01(realok)), "ok")
 				// the printed form read in the other modes
 				if c.Rng.Intn(4) == 0 {
 					parseCase(s, tmpl, [4]bool{c.Rng.Intn(2) == 0, c.Rng.Intn(4) == 0, c.Rng.Intn(3) == 0, c.Rng.Intn(4) == 0})
